@@ -599,6 +599,29 @@ var witnesses = []witness{
 		}
 		return wantEq("rows through the vacuuming connection after the vacuum", w.q("select k from t order by k"), before)
 	}},
+	{id: "F51", props: []string{"C09"}, known: true, what: "a vacuum from a connection that has not merged another writer's version purges the marker of a row that version still holds: the row is back for everyone who merges the two", run: func(w *wEnv) string {
+		w.mk("a", "k primary key, a", sqlh.TableOpts{})
+		w.x("insert into a values(1,'one')")
+		w.x("insert into a values(2,'two')")
+		dbB := sqlh.Open()
+		defer dbB.Close()
+		if r := sqlh.XS(dbB, sqlh.CreateSQL(sqlh.TableOpts{Name: "b", Bucket: w.bucket, Prefix: "p", Columns: "k primary key, a"})); r != "ok" {
+			return "second connection: " + r
+		}
+		sqlh.Exec(dbB, "insert into b values(3,'three')") // B's own version: 1, 2, 3 live
+		time.Sleep(time.Millisecond)
+		w.x("delete from a where k=2") // A (has not seen B's version) deletes 2
+		time.Sleep(time.Millisecond)
+		if err := s3db.Vacuum(context.Background(), "a", time.Now().Add(time.Hour)); err != nil {
+			return "vacuum: " + err.Error()
+		}
+		dbC := sqlh.Open()
+		defer dbC.Close()
+		if r := sqlh.XS(dbC, sqlh.CreateSQL(sqlh.TableOpts{Name: "c", Bucket: w.bucket, Prefix: "p", Columns: "k primary key, a", ReadOnly: true})); r != "ok" {
+			return "fresh open: " + r
+		}
+		return wantEq("rows a fresh reader merges together", sqlh.QS(dbC, "select k from c order by k"), i(1)+" | "+i(3))
+	}},
 	{id: "F10", props: []string{"C08"}, known: true, what: "empty TEXT reads back as NULL", run: func(w *wEnv) string {
 		w.mk("t", "k primary key, a", sqlh.TableOpts{})
 		w.x("insert into t values (1,'')")
